@@ -1,13 +1,15 @@
 (* Run/C09.v — Sx codec around Model/ReqSM.v + Model/Stats.v for the correspondence legs of C09 and C14.
 
    case   = ( ppmode ( orc orc orc orc ) ( step ... ) )
-     ppmode = 0|1                       preprocessor cache mode of the DiskCache
+     ppmode = bit 0: preprocessor cache mode of the DiskCache; bit 1: a small cache (2000 bytes: four result
+              entries; only used by histories over ONE unit, eviction is not modelled)
      orc    = ( pp_status upd c_status c_out )      the fake compiler's behaviour for translation unit 0..3;
                                                     status 99 = the server's own code panics before spawning it;
                                                     status 98 = the process is killed by signal 9 (no exit code:
                                                     reported as status 256 + 9)
    step   = ( req tu class cc outdir_ok ( ppget ppupd ppput get put ) )
           | ( par req req ... )          concurrent requests (distinct translation units, no transient faults)
+          | ( twin tu )                 two concurrent forced-recache requests of one unit; one store fails while writing
           | ( midzero req )            ZeroStats issued while the request is held inside its cache lookup
           | ( disk res|pp garbage|truncate|empty|delete tu )
           | ( disk res flip tu off )     bytes changed in place inside a member's data: member off mod 3 (obj, stdout,
@@ -117,7 +119,9 @@ Definition dec_ppget (x : sx) : ppget_fault :=
 
 Definition dec_put (x : sx) : put_fault :=
   if is_sym "err" x then WErr else if is_sym "toolarge" x then WTooLarge
-  else if is_sym "ro" x then WReadOnly else if is_sym "panic" x then WPanic else WNone.
+  else if is_sym "ro" x then WReadOnly else if is_sym "panic" x then WPanic
+  else if is_sym "wfail" x then WErr        (* the write to the temporary file fails after the reservation *)
+  else WNone.
 
 Definition dec_get (x : sx) : get_fault :=
   if is_sym "miss" x then GMiss else if is_sym "err" x then GErr
@@ -302,6 +306,22 @@ Definition run_one (ppmode : bool) (orcs : list sx) (m : mstate) (x : sx) : msta
                      enc_disk_m m'; enc_stats (m_stats m')])
         | _ => (m, err "bad midzero step")
         end
+      else if is_sym "twin" tag then
+        (* two concurrent forced-recache requests of one unit; the store of one of them fails while it writes, the
+           other one commits: the same as the two requests one after the other, in either order *)
+        match args with
+        | [t] =>
+            let none := SL [sym "none"; sym "none"; sym "none"; sym "none"; sym "none"] in
+            let failing := SL [sym "none"; sym "none"; sym "none"; sym "none"; sym "wfail"] in
+            let mk fs := SL [sym "req"; t; sym "compile"; sym "recache"; SN 1; fs] in
+            let '(st1, r1, a1, _, _) := run_req ppmode orcs true (b || m_dead m) (mk failing) (m_cache m) in
+            let '(st2, r2, a2, _, _) := run_req ppmode orcs true (b || m_dead m) (mk none) st1 in
+            let m' := {| m_cache := st2; m_stats := apply_actions a2 (apply_actions a1 (m_stats m)); m_broken := b;
+                         m_dead := m_dead m; m_distfail := m_distfail m |} in
+            (m', SL [sym "twin"; SL [enc_result r1; enc_result r2]; SN (r_pp_runs r1 + r_pp_runs r2);
+                     SN (r_cc_runs r1 + r_cc_runs r2); enc_disk_m m'; enc_stats (m_stats m')])
+        | _ => (m, err "bad twin step")
+        end
       else if is_sym "par" tag then
         let '(m', res, pp, cc) := run_par ppmode orcs args m [] [0; 0; 0; 0] [0; 0; 0; 0] in
         (m', SL [sym "par"; SL res; SL (map SN pp); SL (map SN cc); enc_disk_m m'; enc_stats (m_stats m')])
@@ -357,7 +377,7 @@ Fixpoint run_all (ppmode : bool) (orcs : list sx) (m : mstate) (steps : list sx)
 Definition run_reqsm (x : sx) : sx :=
   match x with
   | SL [pm; SL orcs; SL steps] =>
-      SL (run_all (get_bool pm) orcs {| m_cache := empty_cache; m_stats := zero_stats; m_broken := false; m_dead := false; m_distfail := false |} steps)
+      SL (run_all (N.odd (get_N pm)) orcs {| m_cache := empty_cache; m_stats := zero_stats; m_broken := false; m_dead := false; m_distfail := false |} steps)
   | _ => err "bad case"
   end.
 
